@@ -9,9 +9,19 @@ _RE_MOST = re.compile(r"^Expecting (-?\d+) elements at maximum, but found (-?\d+
 
 def run_case(c):
     nodes = {}
-    root = build(tuple(c["tree"]) if False else c["tree"], AnyNode, nodes=nodes)
+    if c.get("embed"):
+        import implutil
+        A = implutil.adv(AnyNode)
+        top = A(lbl=1000)
+        A(parent=top, lbl=1001, a=1)
+        root = build(c["tree"], AnyNode, parent=A(parent=top, lbl=1002, a=0), nodes=nodes)
+    else:
+        root = build(c["tree"], AnyNode, nodes=nodes)
+    NONE = 99          # token of Python's None (as an attribute value and as the searched value)
     for k, v in c["attrs"]:
-        nodes[k].a = v
+        nodes[k].a = None if v == NONE else v
+    if c["value"] == NONE:
+        c = dict(c, value=None)
     filt = (lambda n, s=set(c["filt"]): n.lbl in s) if c["filt"] is not None else None
     stop = (lambda n, s=set(c["stop"]): n.lbl in s) if c["stop"] is not None else None
     m = cachedsearch if c["cached"] else search
